@@ -59,15 +59,19 @@ Definition split_netloc (r : str) : str * str := span (fun c => negb (is_delim c
 
 (* _check_bracketed_host; false stands for ValueError *)
 Definition ip6_char (c : Z) : bool := is_hex c || (c =? 58) || (c =? 46).
+(* ipaddress.ip_address(h) succeeds with an IPv6Address (alphabet test only, see the header) *)
+Definition check_ip_literal (h : str) : bool :=
+  let '(addr, has_pct, zone) := partition 37 h in
+  negb (null addr) && forallb ip6_char addr && (2 <=? count_char 58 addr)
+  && (negb has_pct || (negb (null zone) && negb (contains_char 37 zone))).
+(* re.match(r"\Av[a-fA-F0-9]+\..+\Z", "v" + r) *)
+Definition check_ipvfuture (r : str) : bool :=
+  let (hx, rest) := span is_hex r in
+  negb (null hx) && match rest with 46 :: _ :: _ => true | _ => false end.
 Definition check_bracketed_host (h : str) : bool :=
   match h with
-  | 118 :: r =>
-      let (hx, rest) := span is_hex r in
-      negb (null hx) && match rest with 46 :: _ :: _ => true | _ => false end
-  | _ =>
-      let '(addr, has_pct, zone) := partition 37 h in
-      negb (null addr) && forallb ip6_char addr && (2 <=? count_char 58 addr)
-      && (negb has_pct || (negb (null zone) && negb (contains_char 37 zone)))
+  | c :: r => if c =? 118 then check_ipvfuture r else check_ip_literal h
+  | [] => check_ip_literal h
   end.
 
 (* the two bracket tests of urlsplit on the netloc; false stands for ValueError("Invalid IPv6 URL")
@@ -86,14 +90,21 @@ Definition netloc_brackets_ok (netloc : str) : bool :=
 Definition split_first (c : Z) (url : str) : str * str :=
   match split_once c url with Some (a, b) => (a, b) | None => (url, []) end.
 
+(* url[:2] == '//' : the text after the two slashes *)
+Definition after_slashes (url : str) : option str :=
+  match url with
+  | a :: b :: r => if (a =? 47) && (b =? 47) then Some r else None
+  | _ => None
+  end.
+
 (* urlsplit(url, scheme): (scheme, netloc, path, query, fragment) *)
 Definition urlsplit (url dflt : str) : res (str * str * str * str * str) :=
   let (scheme, url1) := detect_scheme url dflt in
-  do nl_rest <- match url1 with
-                | 47 :: 47 :: r =>
+  do nl_rest <- match after_slashes url1 with
+                | Some r =>
                     let (netloc, rest) := split_netloc r in
                     if netloc_brackets_ok netloc then Ok (netloc, rest) else Raise ValueErr
-                | _ => Ok ([], url1)
+                | None => Ok ([], url1)
                 end;
   let (netloc, url2) := nl_rest : str * str in
   let (url3, fragment) := split_first 35 url2 in
